@@ -99,8 +99,10 @@ func verifyProofs(k string, keyIdx int, root txscript.TapNode, rt *refaddr.Tree,
 	for _, p := range rproofs {
 		byLeaf[string([]byte{p.Leaf.LeafVersion})+string(p.Leaf.Script)] = p
 	}
-	if len(byLeaf) != len(proofs) {
-		panic("harness: leaves not distinct")
+	if len(byLeaf) != len(rproofs) {
+		// the input leaves are pairwise distinct by construction, so a leaf that
+		// occurs twice in the tree was duplicated (and another one lost) by btcd
+		return fail("taproot-tree-leaf-set/"+k, "the assembled tree has %d leaf positions but only %d distinct leaves: an input leaf was duplicated / lost", len(rproofs), len(byLeaf))
 	}
 	type lp struct {
 		script []byte
